@@ -123,11 +123,16 @@ ExpDiff(t, s) == RampZ(SortByAddr(ZipR(TakeR(t, LenR(s)), s)))
 Splice(c, at, s) == TakeR(c, at) \o s \o DropR(c, at + LenR(s))
 
 (* ------------------------------- operation classes and result rules -------------------- *)
-ReaderOps   == {"read", "read_obj", "read_exact", "read_to", "read_to_at", "read_exact_to"}
-WriterOps   == {"write", "write_vectored", "write_all", "write_obj", "write_from", "write_from_at", "write_all_from"}
-ExactOps    == {"read_obj", "read_exact", "read_exact_to", "write_all", "write_obj", "write_all_from"}
-FileSrcOps  == {"write_from", "write_from_at", "write_all_from"}
-FileSinkOps == {"read_to", "read_to_at", "read_exact_to"}
+\* the async_* names are the async-io entry points: same obligations as their synchronous counterparts
+\* (async_write2/3 offer two/three slices like write_vectored)
+ReaderOps   == {"read", "read_obj", "read_exact", "read_to", "read_to_at", "read_exact_to", "async_read_to_at"}
+WriterOps   == {"write", "write_vectored", "write_all", "write_obj", "write_from", "write_from_at", "write_all_from",
+                "async_write", "async_write2", "async_write3", "async_write_all", "async_write_from_at"}
+ExactOps    == {"read_obj", "read_exact", "read_exact_to", "write_all", "write_obj", "write_all_from", "async_write_all"}
+FileSrcOps  == {"write_from", "write_from_at", "write_all_from", "async_write_from_at"}
+FileSinkOps == {"read_to", "read_to_at", "read_exact_to", "async_read_to_at"}
+AtOps       == {"write_from_at", "read_to_at", "async_write_from_at", "async_read_to_at"}   \* explicit file offset, cursor untouched
+CommitOps   == {"commit", "async_commit"}
 CursorOps   == {"write_from", "write_all_from", "read_to", "read_exact_to"}   \* move the file cursor
 MoveOps     == ReaderOps \cup WriterOps
 
